@@ -400,8 +400,52 @@ COMPOSITES = [
     ("Chain-cubic-knn", "vd.Chain([('cub', vd.Cubic()), ('nn', vd.KNeighbors(1))])", False),
     ("Chain-knn-linear-spline", "vd.Chain([('nn', vd.KNeighbors(1)), ('lin', vd.Linear()), ('spline', vd.Spline())])", False),
     ("Chain-vspline-vector-linear-knn", "vd.Chain([('vs', vd.VectorSpline2D(poisson=0.3, mindist=MIND)), ('v', vd.Vector([vd.Linear(), vd.KNeighbors(1)]))])", True),
+    ("Chain-nested-chain-spline", "vd.Chain([('inner', vd.Chain([('trend', vd.Trend(1)), ('nn', vd.KNeighbors(1))])), ('spline', vd.Spline())])", False),
     ("Vector-of-chains-spline-first", "vd.Vector([vd.Chain([('spline', vd.Spline()), ('lin', vd.Linear())]), vd.Chain([('spline', vd.Spline()), ('nn', vd.KNeighbors(1))])])", True),
 ]
+
+
+LABEL_MODES = ["all-equal", "unique", "last-two-equal", "first-two-equal"]
+
+
+def relabel(expr, mode):
+    """Chain never requires unique step labels: rewrite the labels of EVERY chain in the expression (nested chains and
+    chains inside a Vector included) so that they are all equal / the first two equal / the last two equal"""
+    import re
+    if mode == "unique":
+        return expr
+    chains, stack, depth = [], [], 0
+    labels = {m.start(): m for m in re.finditer(r"\('(\w+)', ", expr)}
+    k = 0
+    while k < len(expr):
+        if expr.startswith("vd.Chain(", k):
+            stack.append((depth, []))
+            chains.append(stack[-1][1])
+        if k in labels and stack:
+            stack[-1][1].append(labels[k])
+        ch = expr[k]
+        if ch in "([":
+            depth += 1
+        elif ch in ")]":
+            depth -= 1
+            if stack and depth == stack[-1][0]:
+                stack.pop()
+        k += 1
+    edits = []
+    for ms in chains:
+        names = [m.group(1) for m in ms]
+        if len(names) < 2:
+            continue
+        if mode == "all-equal":
+            new = [names[0]] * len(names)
+        elif mode == "first-two-equal":
+            new = [names[0], names[0]] + names[2:]
+        else:
+            new = names[:-2] + [names[-1], names[-1]]
+        edits += [(m.start(1), m.end(1), nm) for m, nm in zip(ms, new)]
+    for a, b, nm in sorted(edits, reverse=True):
+        expr = expr[:a] + nm + expr[b:]
+    return expr
 
 
 def triangulation_nan(coords):
@@ -423,6 +467,10 @@ def composite_case(rnd, i):
     n = rnd.randint(7, 20) if not has_vspline else rnd.randint(7, 12)
     e, nn, scale, layout = cloud(rnd, n, collinear_ok=not needs_tri)
     expr = expr.replace("MIND", repr(scale * 0.05))
+    # step labels: unique, or deliberately repeated (consecutive rounds of the list use different modes, so that every
+    # composite meets a repeated-label mode within any two rounds)
+    label_mode = LABEL_MODES[(i % len(COMPOSITES) + i // len(COMPOSITES)) % len(LABEL_MODES)]
+    expr = relabel(expr, label_mode)
     if vec:
         arrs = layout2d(rnd, [e, nn, rdata(rnd, n), rdata(rnd, n)], layout)
         coords, data = (arrs[0], arrs[1]), (arrs[2], arrs[3])
@@ -434,7 +482,7 @@ def composite_case(rnd, i):
     if prefit is not None and has_vspline:   # documented memory of VectorSpline2D: give the forces explicitly
         expr = expr.replace("mindist=%r)" % (scale * 0.05), "mindist=%r, force_coords=%s)" % (scale * 0.05, fc_literal(coords)))
     stream = "composite/" + label + ("-prefit" if prefit is not None else "")
-    inp = {"estimator": expr, "coordinates": tolist(coords), "data": tolist(data), "layout": layout,
+    inp = {"estimator": expr, "coordinates": tolist(coords), "data": tolist(data), "layout": layout, "step_labels": label_mode,
            "fitted_before_to": None if prefit is None else {"coordinates": tolist(prefit[0]), "data": tolist(prefit[1])}}
     repro = mk_repro(expr, coords, data, prefit)
     if needs_tri:
@@ -572,7 +620,7 @@ def generate(tier, seed):
         add(knn_case(rnd, i))
     for i in range(16 if q else 160):
         add(scipy_case(rnd, i))
-    for i in range(34 if q else 204):
+    for i in range(36 if q else 216):
         add(composite_case(rnd, i))
     for i in range(30 if q else 210):
         add(trend_poly_case(rnd, i))
